@@ -10,6 +10,14 @@
 (*   Send            nextSeqno(): atomic.AddUint64(&counter, 1); the       *)
 (*                   message may then be published once by Send itself and *)
 (*                   again by every retransmission tick (same seqno).      *)
+(*   FailPublish     a publication attempt returns an error (libp2p        *)
+(*                   publisher.Publish): nothing is delivered. In Send the *)
+(*                   order is nextSeqno, ScheduleRetransmissions, publish: *)
+(*                   when the first attempt fails Send returns the error,  *)
+(*                   but the message keeps its number and the scheduled    *)
+(*                   retransmissions still publish it. (GiveBack = TRUE is *)
+(*                   the wrong variant that hands the number back to the   *)
+(*                   counter: MC_GiveBack shows two messages sharing one.) *)
 (*   StartDeliver    deliver(): snapshot of messageHandlers under the      *)
 (*                   handlers mutex.                                       *)
 (*   TrySend         deliver(): `select { case h.channel <- m: default: }` *)
@@ -49,7 +57,9 @@ CONSTANTS Senders,      \* channel instances that send (each has its own counter
           Cap,          \* capacity of a handler's buffered channel
           Lifecycle,    \* "separate" (libp2p) | "inline" (local)
           SecondCheck,  \* TRUE: the code as written (ctx.Err() re-checked after dequeue)
-          Filter        \* TRUE: the code as written (duplicate filter in place)
+          Filter,       \* TRUE: the code as written (duplicate filter in place)
+          MaxFail,      \* publication attempts that may fail
+          GiveBack      \* FALSE: the code as written (a failed publication keeps its sequence number)
 
 VARIABLES counter,   \* [Senders -> Nat]            channel.counter
           budget,    \* [Msgs -> Nat]               publishes of the message still to come
@@ -63,9 +73,11 @@ VARIABLES counter,   \* [Senders -> Nat]            channel.counter
           seen,      \* [Handlers -> SUBSET Msgs]   filter cache
           ninv,      \* [Handlers -> [Msgs -> Nat]] handler invocations
           stale,     \* [Handlers -> BOOLEAN]       ctx was done when cur was dequeued
-          acc        \* [Handlers -> SUBSET Msgs]   messages ever accepted into the queue
+          acc,       \* [Handlers -> SUBSET Msgs]   messages ever accepted into the queue
+          book       \* bookkeeping of Send calls: [calls : [Senders -> Nat], tagged : [Msgs -> SUBSET Nat],
+                     \* fails : Nat]; tagged[m] = the Send calls (by ordinal) whose message carries number m
 
-vars == <<counter, budget, dl, handlers, ctxDone, removed, pc, queue, cur, seen, ninv, stale, acc>>
+vars == <<counter, budget, dl, handlers, ctxDone, removed, pc, queue, cur, seen, ninv, stale, acc, book>>
 
 Msgs  == [s : Senders, n : 1..MaxSend]
 NoMsg == [s |-> "none", n |-> 0]
@@ -88,6 +100,7 @@ Init ==
     /\ ninv = [h \in Handlers |-> [m \in Msgs |-> 0]]
     /\ stale = [h \in Handlers |-> FALSE]
     /\ acc = [h \in Handlers |-> {}]
+    /\ book = [calls |-> [s \in Senders |-> 0], tagged |-> [m \in Msgs |-> {}], fails |-> 0]
 
 ---------------------------------------------------------------------------
 \* senders
@@ -95,9 +108,19 @@ Init ==
 \* channel.Send / localChannel.Send: a fresh sequence number; the message will
 \* be published once now and up to MaxRetx times by retransmission ticks.
 Send(s) ==
-    /\ counter[s] < MaxSend
-    /\ counter' = [counter EXCEPT ![s] = @ + 1]
-    /\ budget' = [budget EXCEPT ![[s |-> s, n |-> counter[s] + 1]] = 1 + MaxRetx]
+    /\ counter[s] < MaxSend /\ book.calls[s] < MaxSend + MaxFail
+    /\ LET m == [s |-> s, n |-> counter[s] + 1] IN
+         /\ counter' = [counter EXCEPT ![s] = @ + 1]
+         /\ budget' = [budget EXCEPT ![m] = @ + 1 + MaxRetx]
+         /\ book' = [book EXCEPT !.calls[s] = @ + 1, !.tagged[m] = @ \cup {book.calls[s] + 1}]
+    /\ UNCHANGED <<dl, handlers, ctxDone, removed, pc, queue, cur, seen, ninv, stale, acc>>
+
+\* publisher.Publish returns an error: this attempt delivers nothing
+FailPublish(m) ==
+    /\ budget[m] > 0 /\ book.fails < MaxFail
+    /\ budget' = [budget EXCEPT ![m] = @ - 1]
+    /\ book' = [book EXCEPT !.fails = @ + 1]
+    /\ counter' = IF GiveBack /\ counter[m.s] = m.n THEN [counter EXCEPT ![m.s] = @ - 1] ELSE counter
     /\ UNCHANGED <<dl, handlers, ctxDone, removed, pc, queue, cur, seen, ninv, stale, acc>>
 
 \* in-flight deliver() calls form a multiset: the id (smallest unused number)
@@ -111,7 +134,7 @@ StartDeliverC(m, c) ==
     /\ budget' = [budget EXCEPT ![m] = @ - 1]
     /\ dl' = IF handlers = <<>> THEN dl
              ELSE dl \cup {[id |-> FreshId, c |-> c, m |-> m, snap |-> handlers, i |-> 1]}
-    /\ UNCHANGED <<counter, handlers, ctxDone, removed, pc, queue, cur, seen, ninv, stale, acc>>
+    /\ UNCHANGED <<counter, handlers, ctxDone, removed, pc, queue, cur, seen, ninv, stale, acc, book>>
 
 StartDeliver(m) == StartDeliverC(m, 0)
 
@@ -125,7 +148,7 @@ TrySend(d) ==
                 THEN /\ queue' = [queue EXCEPT ![h] = Append(@, d.m)]
                      /\ acc' = [acc EXCEPT ![h] = @ \cup {d.m}]
                 ELSE UNCHANGED <<queue, acc>>          \* "handler too slow, dropping message"
-    /\ UNCHANGED <<counter, budget, handlers, ctxDone, removed, pc, cur, seen, ninv, stale>>
+    /\ UNCHANGED <<counter, budget, handlers, ctxDone, removed, pc, cur, seen, ninv, stale, book>>
 
 ---------------------------------------------------------------------------
 \* receiver lifecycle
@@ -141,12 +164,12 @@ Register(h) ==
     /\ pc[h] = "none"
     /\ handlers' = Append(handlers, h)
     /\ pc' = [pc EXCEPT ![h] = "select"]
-    /\ UNCHANGED <<counter, budget, dl, ctxDone, removed, queue, cur, seen, ninv, stale, acc>>
+    /\ UNCHANGED <<counter, budget, dl, ctxDone, removed, queue, cur, seen, ninv, stale, acc, book>>
 
 Cancel(h) ==
     /\ ~ctxDone[h]
     /\ ctxDone' = [ctxDone EXCEPT ![h] = TRUE]
-    /\ UNCHANGED <<counter, budget, dl, handlers, removed, pc, queue, cur, seen, ninv, stale, acc>>
+    /\ UNCHANGED <<counter, budget, dl, handlers, removed, pc, queue, cur, seen, ninv, stale, acc, book>>
 
 \* libp2p: `go func() { <-ctx.Done(); c.removeHandler(messageHandler) }()`
 RemoveHandler(h) ==
@@ -154,7 +177,7 @@ RemoveHandler(h) ==
     /\ ctxDone[h] /\ pc[h] # "none" /\ ~removed[h]
     /\ handlers' = SwapRemove(handlers, h)
     /\ removed' = [removed EXCEPT ![h] = TRUE]
-    /\ UNCHANGED <<counter, budget, dl, ctxDone, pc, queue, cur, seen, ninv, stale, acc>>
+    /\ UNCHANGED <<counter, budget, dl, ctxDone, pc, queue, cur, seen, ninv, stale, acc, book>>
 
 \* processing goroutine, `case <-ctx.Done()`; local removes the handler here.
 ExitOnDone(h) ==
@@ -164,7 +187,7 @@ ExitOnDone(h) ==
           THEN /\ handlers' = SwapRemove(handlers, h)
                /\ removed' = [removed EXCEPT ![h] = TRUE]
           ELSE UNCHANGED <<handlers, removed>>
-    /\ UNCHANGED <<counter, budget, dl, ctxDone, queue, cur, seen, ninv, stale, acc>>
+    /\ UNCHANGED <<counter, budget, dl, ctxDone, queue, cur, seen, ninv, stale, acc, book>>
 
 ---------------------------------------------------------------------------
 \* processing goroutine
@@ -175,7 +198,7 @@ Dequeue(h) ==
     /\ queue' = [queue EXCEPT ![h] = Tail(@)]
     /\ stale' = [stale EXCEPT ![h] = ctxDone[h]]
     /\ pc' = [pc EXCEPT ![h] = "dequeued"]
-    /\ UNCHANGED <<counter, budget, dl, handlers, ctxDone, removed, seen, ninv, acc>>
+    /\ UNCHANGED <<counter, budget, dl, handlers, ctxDone, removed, seen, ninv, acc, book>>
 
 CheckCtx(h) ==
     /\ pc[h] = "dequeued"
@@ -185,7 +208,7 @@ CheckCtx(h) ==
                /\ stale' = [stale EXCEPT ![h] = FALSE]
           ELSE /\ pc' = [pc EXCEPT ![h] = "checked"]
                /\ UNCHANGED <<cur, stale>>
-    /\ UNCHANGED <<counter, budget, dl, handlers, ctxDone, removed, queue, seen, ninv, acc>>
+    /\ UNCHANGED <<counter, budget, dl, handlers, ctxDone, removed, queue, seen, ninv, acc, book>>
 
 FilterDup(h) ==
     /\ pc[h] = "checked"
@@ -196,23 +219,24 @@ FilterDup(h) ==
           ELSE /\ pc' = [pc EXCEPT ![h] = "passed"]
                /\ seen' = [seen EXCEPT ![h] = @ \cup {cur[h]}]
                /\ UNCHANGED cur
-    /\ UNCHANGED <<counter, budget, dl, handlers, ctxDone, removed, queue, ninv, stale, acc>>
+    /\ UNCHANGED <<counter, budget, dl, handlers, ctxDone, removed, queue, ninv, stale, acc, book>>
 
 Invoke(h) ==
     /\ pc[h] = "passed"
     /\ ninv' = [ninv EXCEPT ![h][cur[h]] = @ + 1]
     /\ pc' = [pc EXCEPT ![h] = "running"]
-    /\ UNCHANGED <<counter, budget, dl, handlers, ctxDone, removed, queue, cur, seen, stale, acc>>
+    /\ UNCHANGED <<counter, budget, dl, handlers, ctxDone, removed, queue, cur, seen, stale, acc, book>>
 
 Return(h) ==
     /\ pc[h] = "running"
     /\ pc' = [pc EXCEPT ![h] = "select"]
     /\ cur' = [cur EXCEPT ![h] = NoMsg]
-    /\ UNCHANGED <<counter, budget, dl, handlers, ctxDone, removed, queue, seen, ninv, stale, acc>>
+    /\ UNCHANGED <<counter, budget, dl, handlers, ctxDone, removed, queue, seen, ninv, stale, acc, book>>
 
 ---------------------------------------------------------------------------
 DoSend          == \E s \in Senders : Send(s)
 DoStartDeliver  == \E m \in Msgs : StartDeliver(m)
+DoFailPublish   == \E m \in Msgs : FailPublish(m)
 DoTrySend       == \E d \in dl : TrySend(d)
 DoRegister      == \E h \in Handlers : Register(h)
 DoCancel        == \E h \in Handlers : Cancel(h)
@@ -224,7 +248,7 @@ DoFilterDup     == \E h \in Handlers : FilterDup(h)
 DoInvoke        == \E h \in Handlers : Invoke(h)
 DoReturn        == \E h \in Handlers : Return(h)
 
-Next == \/ DoSend \/ DoStartDeliver \/ DoTrySend
+Next == \/ DoSend \/ DoStartDeliver \/ DoFailPublish \/ DoTrySend
         \/ DoRegister \/ DoCancel \/ DoRemoveHandler \/ DoExitOnDone
         \/ DoDequeue \/ DoCheckCtx \/ DoFilterDup \/ DoInvoke \/ DoReturn
 
@@ -234,6 +258,7 @@ Spec == Init /\ [][Next]_vars
 TypeOK ==
     /\ counter \in [Senders -> 0..MaxSend]
     /\ budget \in [Msgs -> 0..(1 + MaxRetx)]
+    /\ book.fails \in 0..MaxFail
     /\ \A d \in dl : d.m \in Msgs /\ d.i \in 1..Len(d.snap) /\ d.id \in Nat \ {0}
     /\ \A d, e \in dl : d.id = e.id => d = e
     /\ Range(handlers) \subseteq Handlers
@@ -264,6 +289,10 @@ OnlyAllocated ==
           /\ seen[h] \subseteq Allocated
           /\ acc[h] \subseteq Allocated
           /\ \A m \in Msgs : ninv[h][m] > 0 => m \in Allocated
+
+\* C16 (3): a sequence number is never attached to two different messages,
+\* including messages whose first publication failed
+SeqnoUnique == \A m \in Msgs : Cardinality(book.tagged[m]) <= 1
 
 SeqnoStep == [][\A s \in Senders : counter'[s] \in {counter[s], counter[s] + 1}]_vars
 
